@@ -214,7 +214,7 @@ package nsqd
 
 // IOLoop calls Exec only with at least the command word (bytes.Split never returns an empty slice).
 //@ func (p *protocolV2) Exec(client *clientV2, params [][]byte) ([]byte, error)
-//@   props C09 C03 C02
+//@   props C09 C03 C02 C11
 //@   requires p != nil && p.nsqd != nil && client != nil && len(params) >= 1
 //@   requires[subscribed-has-channel] hasChannel(client)
 //@   requires[publish-context] validPubCtx(p, client)
